@@ -37,6 +37,15 @@ CHECKS['C17'] = inputs('grpcgcp', 'grpcgcp', 'grpcgcp',
                        'exhaustive enumeration of ApiConfig values (channel_pool grid x method lists) and JSON renderings/corruptions; non-trivial = distinct configurations for which the effective configuration, the method table or GCPConfig() was compared',
                        instrument=[{'pkg': 'grpcgcp', 'vgrpc': 'gcp_multiendpoint.go'}, {'pkg': 'grpcgcp/multiendpoint'}])
 
+CHECKS['C18'] = inputs('spanner_prober', 'spanner_prober', 'spanner_prober',
+                       'exhaustive grids for backoff, server-timing metadata pairs, flag strings/numbers and payload sizes; non-trivial = inputs that exercise the interesting branch (backoff strictly between base and max, latency parsed successfully, flag set accepted)')
+CHECKS['C18']['extra_files'] = [('spanner_prober/prober/zz_verif_export.go', 'harness/spanner_prober_export/export.go')]
+CHECKS['C18']['workers'] = {'quick': 1, 'thorough': 1}
+
+CHECKS['C19'] = inputs('e2e-checksum', 'e2e-checksum', 'e2e_checksum',
+                       'exhaustive enumeration of a message grammar x unknown-field variants through the real codec; non-trivial = distinct (message, unknown fields) pairs whose output passed through all oracles')
+CHECKS['C19']['workers'] = {'quick': 4, 'thorough': 4}
+
 BFS_NOTE = ('Bounded: depth/alphabet/configurations as reported in the evidence; small scope (<=3 channels/endpoints, 2 keys, <=3 open calls). '
             'Trusted: the instrumenter (vinstr) preserves semantics; the shims for sync/atomic/time/context; the fake environment (ClientConn, virtual clock/timers); the reference model written from the property statement.')
 def _m(engine, technique, text, ref, note=BFS_NOTE):
@@ -59,5 +68,7 @@ META = {
     'C15': _m('history-bfs', T_BFS, 'After every transition every context (none, known, unknown name) x (unary, stream) is probed and must reach the pool of the reference current endpoint; pool set, re-dial, close-once and monitor liveness are checked after every reconfiguration.', 'DESIGN.md 4/C15'),
     'C16': _m('history-bfs', T_BFS, 'Every invalid option kind and dial failure, as constructor argument and at any later position, must be rejected with routing unchanged; Close and failed construction must leave no open pool and no live thread (the scheduler knows every thread the object spawned).', 'DESIGN.md 4/C16'),
     'C17': _m('input-enum', 'bounded-exhaustive (small-scope) enumeration of configurations and JSON texts on the real parser/balancer/GCPMultiEndpoint against reference expectations', 'Every configuration of the grid is parsed (with well-formed and corrupted JSON renderings), applied through the first resolver update on the real balancer, compared with supplied+defaults, checked for aliasing by mutation, and a second update must change nothing; GCPConfig() deep-copy checks on the real GCPMultiEndpoint.', 'DESIGN.md 4/C17', 'Bounded grid as reported; protojson.Unmarshal into a plain ApiConfig is the oracle for JSON acceptance.'),
+    'C18': _m('input-enum', 'bounded-exhaustive (small-scope) input enumeration on the real helper functions against independent references', 'Complete grids of (base,max,retries), (header,trailer) metadata pairs, flag strings up to length 3 over an 11-character alphabet and numeric boundary values are evaluated on the real functions.', 'DESIGN.md 4/C18', 'Bounded grids as reported; NewProber is not called (needs the network).'),
+    'C19': _m('input-enum', 'bounded-exhaustive (small-scope) input enumeration on the real codec against an independent CRC32C and wire-format walker', 'Every message of the grammar, with and without unknown fields (including a pre-existing field 2047), is marshalled by the real codec; framing, checksum value, payload identity, decodability by the codec and by plain proto.Unmarshal, and error pass-through are checked.', 'DESIGN.md 4/C19', 'Bounded message grammar as reported.'),
     'C20': _m('history-bfs', T_BFS, 'Address lists handed to every connection (creation, update, take-over) are tracked by the fake ClientConn and compared with the latest resolver result after every transition.', 'DESIGN.md 4/C20'),
 }
